@@ -165,21 +165,32 @@ def body(chk, db, cfgname):
     # ---- sizes: IndexSize = sum Orb*Spin over Sites; resize before the writes; inverse table over [0, IndexSize)
     r2 = chk.rule("C18-R2", "look-up tables are sized, filled and read as mutual inverses", "F1 dominance", 5)
     acc = [j for j, n in f.walk(f.body) if n["k"] == "bin" and n["op"] == "+=" and ctx.key(n["l"]) == isize]
-    good = False
-    for j in acc:
-        L = enclosing_loops(f, j)
-        if len(L) == 1:
-            s = loop_shape(f, ctx, L[0])
-            if s["kind"] == "iter" and s["bound"] == sites and not s["exits"]:
-                rk = ctx.key(f.nodes[j]["r"])
-                if rk[0] == "op" and rk[1] == "*" and {rk[2], rk[3]} & set(field_of_site("OrbitalSize", s["var"])) and {rk[2], rk[3]} & set(field_of_site("SpinSize", s["var"])):
-                    good = True
+    from pv.loops import sum_over, is_element
     ctor = [g for g in db.fns_named(IC + "IndexClassification") if g.kind == "ctor"]
     zero_init = any(i.get("field") == "IndexSize" and Ctx(g, db).key(i["e"]) == ("lit", 0) for g in ctor for i in g.d.get("inits", []))
-    if good and zero_init and len(acc) == 1:
-        r2.ok(IC + "prepare:IndexSize", f.loc(acc[0]), "IndexSize = sum over all sites of OrbitalSize*SpinSize (initialised 0 in the constructor)", cfgname)
+    so_ = sum_over(f, ctx, sites) if len(acc) == 1 else {"status": "unknown", "why": "%d accumulations into IndexSize" % len(acc)}
+    if so_["status"] == "ok" and ctx.key(f.nodes[so_["acc"]]["l"] if f.nodes[so_["acc"]]["k"] == "bin" else f.nodes[so_["acc"]]["args"][0]) != isize:
+        so_ = {"status": "unknown", "why": "the accumulation over the sites does not target IndexSize"}
+    if so_["status"] == "unknown":
+        r2.unknown(IC + "prepare:IndexSize", f.loc(), "the size computation is written in a form that is not analysed (%s)" % so_["why"], cfgname)
+    elif so_["status"] == "partial":
+        r2.bad(IC + "prepare:IndexSize", f.loc(so_["node"]), "IndexSize is not the sum of OrbitalSize*SpinSize over all sites: " + so_["why"], cfgname)
     else:
-        r2.bad(IC + "prepare:IndexSize", f.loc(), "IndexSize is not the sum of OrbitalSize*SpinSize over all sites", cfgname)
+        rk = ctx.key(so_["term"])
+        shp_ = so_["loop"]
+
+        def fld_of(k, nm):
+            return k[0] == "field" and k[1] == "Pomerol::Lattice::Site::" + nm and (is_element(k[2], shp_, sites) or (k[2][0] == "field" and k[2][1] == "std::pair::second" and is_element(k[2][2], shp_, sites))
+                                                                                   or (k[2][0] in ("un", "op") and k[2][1] == "*" and k[2][2][0] == "field" and k[2][2][1] == "std::pair::second" and is_element(k[2][2][2], shp_, sites)))
+        prod = rk[0] == "op" and rk[1] == "*" and len(rk) == 4 and ((fld_of(rk[2], "OrbitalSize") and fld_of(rk[3], "SpinSize")) or (fld_of(rk[3], "OrbitalSize") and fld_of(rk[2], "SpinSize")))
+        if prod and zero_init and not so_["filtered"]:
+            r2.ok(IC + "prepare:IndexSize", f.loc(acc[0]), "IndexSize = sum over all sites of OrbitalSize*SpinSize (initialised 0 in the constructor)", cfgname)
+        elif so_["filtered"]:
+            r2.bad(IC + "prepare:IndexSize", f.loc(acc[0]), "IndexSize is not the sum of OrbitalSize*SpinSize over all sites: some sites are skipped", cfgname)
+        elif not zero_init:
+            r2.bad(IC + "prepare:IndexSize", f.loc(acc[0]), "IndexSize is not the sum of OrbitalSize*SpinSize over all sites: it does not start at 0", cfgname)
+        else:
+            r2.bad(IC + "prepare:IndexSize", f.loc(acc[0]), "IndexSize is not the sum of OrbitalSize*SpinSize over all sites: the term added per site is %s" % f.s(so_["term"])[:60], cfgname)
     rs = [j for j, n in f.walk(f.body) if n["k"] == "call" and n["ck"] == "method" and (n.get("cname") or "").endswith("::resize") and ctx.key(n["obj"]) == i2i]
     good = len(rs) == 1 and ctx.key(f.nodes[rs[0]]["args"][0]) == isize and all(f.cfg.dominates(f.cfg.pos1(rs[0]), f.cfg.pos1(W)) for W in writes) \
         and all(f.cfg.dominates_block(f.cfg.loop_blocks(enclosing_loops(f, a)[0])[0], f.cfg.pos1(rs[0])[0])
@@ -217,7 +228,7 @@ def body(chk, db, cfgname):
             good = False
     rets = [j for j, n in g.walk(g.body) if n["k"] == "return"]
     for j in rets:
-        if gctx.key(g.nodes[j]["sub"]) != ("un", "*", ("op", "[]", i2i, pk)):
+        if gctx.key(g.nodes[j]["sub"]) not in (("un", "*", ("op", "[]", i2i, pk)), ("op", "*", ("op", "[]", i2i, pk))):
             good = False
     if good:
         r2.ok(IC + "getInfo", g.loc(), "IndicesToInfo[in] is read under in < IndexSize and *IndicesToInfo[in] is returned", cfgname)
@@ -232,11 +243,22 @@ def body(chk, db, cfgname):
     ne = ("!=",) + tuple(sorted([fk, ek], key=repr))
     good = True
     nfound = 0
+    found_forms = (("field", "std::pair::second", ("op", "->", fk)), ("field", "std::pair::second", ("op", "*", fk)), ("field", "std::pair::second", ("un", "*", fk)))
     for j, n in g.walk(g.body):
         if n["k"] == "return":
             rk = gctx.key(n["sub"])
             fa = gat.get(g.cfg.pos1(j), frozenset())
-            if rk in (("field", "std::pair::second", ("op", "->", fk)), ("field", "std::pair::second", ("op", "*", fk))):
+            if rk[0] == "cond" and len(rk) == 4:
+                # return (it == end) ? IndexSize : it->second   /   (it != end) ? it->second : IndexSize
+                c_ = rk[1]
+                eqc = c_[0] == "op" and c_[1] in ("==", "!=") and {c_[2], c_[3]} == {fk, ek}
+                a_, b_ = (rk[2], rk[3]) if (eqc and c_[1] == "!=") else (rk[3], rk[2])
+                if eqc and a_ in found_forms and b_ == isize:
+                    nfound += 1
+                else:
+                    good = False
+                continue
+            if rk in found_forms:
                 nfound += 1
                 if not entails(fa, ne):
                     good = False
@@ -257,87 +279,63 @@ def body(chk, db, cfgname):
 
 
 def check_lt(r3, db, cfgname):
+    """IndexInfo::operator< must be a strict weak order under which two IndexInfo are equivalent only if they agree in
+    (label hash, orbital, spin).  The comparator only compares / combines three members, so evaluating its extracted body
+    on all pairs over a small domain (2 hashes x 4 orbitals x 4 spins: every relative order of every member occurs, and
+    enough range to expose packed keys) decides it however it is written; a counterexample is reported with its witness."""
+    from pv.summ import Interp, Obj, Thrown
     lt = db.fn(IC + "IndexInfo::operator<", nparams=1)
-    with r3.guard(IC + "IndexInfo::operator<", lt.loc(), cfgname):
-        lctx = Ctx(lt, db)
-        lat = guard_facts(lt, lctx)
-        rhs = ("param", lt.params[0]["d"], lt.params[0]["n"])
-        II = IC + "IndexInfo::"
+    II = IC + "IndexInfo::"
+    site = IC + "IndexInfo::operator<"
+    with r3.guard(site, lt.loc(), cfgname):
+        vals = [(h, o, s_) for h in (1, 2) for o in range(4) for s_ in range(4)]
 
-        def mine(nm):
-            return ("field", II + nm, THIS)
-
-        def theirs(nm):
-            return ("field", II + nm, rhs)
-        rets = [j for j, n in lt.walk(lt.body) if n["k"] == "return" and n.get("sub") is not None]
-        order = []
-        for j in rets:
-            k = lctx.key(lt.nodes[j]["sub"])
-            k = k[2] if k[0] == "cast" else k
-            if k[0] == "lit":
-                fa = lat.get(lt.cfg.pos1(j), frozenset())
-                tie = all((("==",) + tuple(sorted([mine(c), theirs(c)], key=repr))) in fa for c in ("Orbital", "Spin"))
-                if not tie:
-                    r3.bad(IC + "IndexInfo::operator<:constant-return", lt.loc(j), "operator< returns a constant although Orbital and Spin were not both found equal: distinct (orbital, spin) pairs become equivalent keys", cfgname)
-                continue
-            if not (k[0] == "op" and k[1] in ("<", ">") and len(k) == 4):
-                raise AnalysisBroken("a return of operator< is not a plain comparison of one member with the same member of rhs: %s" % lt.s(lt.nodes[j]["sub"])[:80])
-            a, b = (k[2], k[3]) if k[1] == "<" else (k[3], k[2])
-            nm = None
-            for cand in ("SiteLabelHash", "SiteLabel", "Orbital", "Spin"):
-                if a == mine(cand) and b == theirs(cand):
-                    nm = cand
-            if nm is None:
-                # a derived key K(Orbital, Spin) compared with the same K of rhs: search a small domain for two distinct
-                # (orbital, spin) pairs with equal keys.  A collision is a concrete counterexample (both values are legal
-                # for a site with enough orbitals and spins); no collision on the domain proves nothing -> undecided.
-                swap = {mine("Orbital"): theirs("Orbital"), mine("Spin"): theirs("Spin")}
-                from pv.expr import key_subst as _ks
-                if _ks(a, lambda x: swap.get(x)) == b and key_contains(a, lambda x: x in swap):
-                    seenk = {}
-                    hit = None
-                    for o_ in range(6):
-                        for s_ in range(6):
-                            try:
-                                v = _keyval(a, {mine("Orbital"): o_, mine("Spin"): s_})
-                            except KeyError:
-                                v = None
-                            if v is None:
-                                seenk = None
-                                break
-                            if v in seenk:
-                                hit = (seenk[v], (o_, s_), v)
-                                break
-                            seenk[v] = (o_, s_)
-                        if hit or seenk is None:
-                            break
-                    if hit:
-                        r3.bad(IC + "IndexInfo::operator<", lt.loc(j), "operator< orders (orbital, spin) by the derived key %s, which is not injective: (orbital=%d, spin=%d) and (orbital=%d, spin=%d) both give %d, so two different indices of one site are equivalent keys and the inverse table loses one of them" % (
-                            lt.s(lt.nodes[j]["sub"])[:60], hit[0][0], hit[0][1], hit[1][0], hit[1][1], hit[2]), cfgname)
-                        order = None
+        def mk(v):
+            return Obj("IndexInfo", **{II + "SiteLabelHash": v[0], II + "Orbital": v[1], II + "Spin": v[2], II + "SiteLabel": "site%d" % v[0]})
+        less = {}
+        ip = Interp(db, {})
+        for x in vals:
+            for y in vals:
+                try:
+                    r_ = ip.call_fn(lt, [mk(y)], this=mk(x))
+                except Thrown as t:
+                    raise AnalysisBroken("operator< throws (%s) on ordinary values" % t.tt)
+                less[(x, y)] = bool(r_)
+                ip.steps = 0
+        fmt = lambda v: "(hash %d, orbital %d, spin %d)" % v
+        bad = None
+        for x in vals:
+            if less[(x, x)]:
+                bad = "it is not irreflexive: %s < itself" % fmt(x)
+                break
+        if bad is None:
+            for x in vals:
+                for y in vals:
+                    if x != y and not less[(x, y)] and not less[(y, x)]:
+                        bad = "%s and %s are different indices but neither is less than the other: they are equivalent keys of the inverse table, one of them is lost" % (fmt(x), fmt(y))
                         break
-                raise AnalysisBroken("operator< compares %s, which is not a single member against the same member of rhs (packed / derived keys cannot be shown to separate all (orbital, spin) pairs)" % lt.s(lt.nodes[j]["sub"])[:80])
-            fa = lat.get(lt.cfg.pos1(j), frozenset())
-            eqs = {c for c in ("SiteLabelHash", "SiteLabel", "Orbital", "Spin") if ("==",) + tuple(sorted([mine(c), theirs(c)], key=repr)) in fa}
-            neq = ("!=",) + tuple(sorted([mine(nm), theirs(nm)], key=repr)) in fa
-            order.append((nm, eqs, neq, j))
-        site = IC + "IndexInfo::operator<"
-        if order is None:
-            return
-        names = [o[0] for o in order]
-        good = set(names) >= {"Orbital", "Spin"} and bool({"SiteLabelHash", "SiteLabel"} & set(names))
-        # lexicographic: the comparison of member k is reached only when all earlier members are equal
-        seq = sorted(order, key=lambda o: len(o[1]))
-        for i, (nm, eqs, neq, j) in enumerate(seq):
-            earlier = {x[0] for x in seq[:i]}
-            if not earlier <= eqs:
-                good = False
-            if i < len(seq) - 1 and not neq:
-                good = False
-        if good:
-            r3.ok(site, lt.loc(), "compares %s in turn, each only when the previous ones are equal" % ", ".join(o[0] for o in seq), cfgname)
+                    if x != y and less[(x, y)] and less[(y, x)]:
+                        bad = "%s < %s and %s < %s both hold: not an order (std::map with this comparator is undefined)" % (fmt(x), fmt(y), fmt(y), fmt(x))
+                        break
+                if bad:
+                    break
+        if bad is None:
+            # transitivity (a total, antisymmetric, irreflexive relation can still be cyclic)
+            for x in vals:
+                lx = [y for y in vals if less[(x, y)]]
+                for y in lx:
+                    for z in vals:
+                        if less[(y, z)] and not less[(x, z)]:
+                            bad = "%s < %s < %s but not %s < %s: the relation is not transitive" % (fmt(x), fmt(y), fmt(z), fmt(x), fmt(z))
+                            break
+                    if bad:
+                        break
+                if bad:
+                    break
+        if bad:
+            r3.bad(site, lt.loc(), "operator< is not an order that separates all (label, orbital, spin) triples: " + bad, cfgname)
         else:
-            r3.bad(site, lt.loc(), "operator< is not a lexicographic comparison over label, Orbital and Spin (members compared: %s): two different (site, orbital, spin) triples can be equivalent keys, so the inverse table loses entries" % names, cfgname)
+            r3.ok(site, lt.loc(), "strict total order on %d sample triples covering every relative order of hash, orbital and spin (comparator body interpreted)" % len(vals), cfgname)
 
 
 def _keyval(k, env):
@@ -383,7 +381,7 @@ def max_idiom(f, ctx, var, sites):
     cands = field_of_site("SpinSize", s["var"])
     v = ("var", var[1], var[2])
     if n["k"] == "bin" and n["op"] == "=":
-        rk = ctx.key(n["r"], inline=False)
+        rk = ctx.key(n["r"])
         rk = rk[2] if rk[0] == "cast" else rk
         if rk[0] == "cond":
             c, a, b = rk[1], rk[2], rk[3]
